@@ -287,6 +287,29 @@ func genC13db(r *rng, tier string, res *Result) {
 				g.put(g.pick(), g.value())
 			}
 		}
+		if i%3 != 0 {
+			// a Close that FAILS at its k-th file-system call did not complete: the lock file must
+			// stay, and the next Open must recover (the index files may be half written)
+			g.im.FS.FailCall = g.im.FS.Calls + g.r.intn(6) // (only file-system level calls are counted: the metadata files opened by Close, the lock removal)
+			out := resultLine(normalise(g.im.Exec("close")))
+			g.im.FS.FailCall = -1
+			if strings.HasPrefix(out, "close err") {
+				res.Tags["failed_closes_injected"]++
+				if _, hasLock := g.im.FS.Image()[g.im.Dir+"/lock"]; !hasLock {
+					res.Findings = append(res.Findings, &Finding{Kind: "spec", Case: g.c.Name, Cmd: "Close failing at one of its file-system calls",
+						Impl: []string{out, "the lock file is gone although Close did not complete"}, Expected: []string{"the lock file stays: the next Open must recover"}, Program: cmdsOf(g.c)})
+				}
+				g.im.Exec("kill")
+				g.isOpen = false
+				g.open()
+				g.c.Steps[len(g.c.Steps)-1].Expect = []string{"open ok recovered=1"}
+				g.checkAll()
+			} else if strings.HasPrefix(out, "close ok") {
+				g.isOpen = false
+				g.open()
+				g.checkAll()
+			}
+		}
 		// unclean end of the session; then Opens that fail at their k-th file-system call
 		g.do("kill")
 		g.isOpen = false
@@ -332,8 +355,11 @@ func genC13db(r *rng, tier string, res *Result) {
 				break
 			}
 		}
-		c, _ := g.finish()
+		c, impl := g.finish()
 		res.addCase(c)
+		if f := checkSpec(c, impl); f != nil {
+			res.Findings = append(res.Findings, f)
+		}
 		res.Distinct++
 	}
 }
